@@ -97,6 +97,11 @@ def sf_unchanged_old_class(ex, st, cls):
     return sf_unchanged_old(ex, st, *names)
 
 
+def sf_nonnull(ex, st, x):
+    """the value of an optional known (by the surrounding guard) not to be None"""
+    return opt_get(x) if isinstance(x.kind, KOpt) else x
+
+
 def sf_at_entry(ex, st, *a):
     raise OutOfSubset("at_entry is a special form")
 
@@ -104,7 +109,7 @@ def sf_at_entry(ex, st, *a):
 def install(reg):
     reg.specfuncs.update(isnew=sf_isnew, isold=sf_isold, isnan=sf_isnan, same=sf_same, unchanged=sf_unchanged,
                          unchanged_except=sf_unchanged_except, unchanged_old=sf_unchanged_old, fdiv=sf_fdiv,
-                         unchanged_old_class=sf_unchanged_old_class)
+                         unchanged_old_class=sf_unchanged_old_class, nonnull=sf_nonnull)
 
 
 # ---------------------------------------------------------------- folds over float lists
